@@ -548,7 +548,14 @@ def nfind(tree, name: str, cls: str | None = None, loops: bool = True) -> ast.Fu
     """find_func + normalise (the module's path and the repository come from the table filled by `parse_n`)."""
     fn = find_func(tree, name, cls)
     cnode = _class(tree, cls) if cls is not None else None
-    return normalise(fn, tree, cnode, _SRC["repo"], _SRC["rels"].get(id(tree)), loops)
+    try:
+        return normalise(fn, tree, cnode, _SRC["repo"], _SRC["rels"].get(id(tree)), loops)
+    except TranslationError:
+        raise
+    except Exception:  # noqa: BLE001 - a shape the normaliser cannot digest: the analyses read the function as written
+        fn = _copy.deepcopy(fn)
+        fn._tree = tree
+        return fn
 
 
 def parse_n(repo: Path, rel: str):
